@@ -499,6 +499,20 @@ func (a *act) applyContract(sp *FuncSpec, fn *ssa.Function, m *types.Func, args 
 		_ = i
 		fx.addObl("pre@"+short, a.prefix()+name, guard, t, pos, "precondition of "+sp.Key)
 	}
+	// function-typed arguments with a callspec: a statically known argument is checked against it here
+	if fn != nil {
+		for i, prm := range fn.Params {
+			cs := sp.CallSpecs[prm.Name()]
+			if cs == nil || i >= len(args) {
+				continue
+			}
+			if args[i].Fn == nil {
+				fx.eng.assume("callspec of " + sp.Key + ":" + prm.Name() + " is assumed for function values that are not statically known")
+				continue
+			}
+			a.checkCallSpec(sp, cs, prm.Name(), args[i], guard, pre, pos)
+		}
+	}
 	// havoc modified locations
 	items := fx.modItems(sp.Modifies, env, pre)
 	byHeap := map[string][]modItem{}
@@ -540,11 +554,30 @@ func (a *act) applyContract(sp *FuncSpec, fn *ssa.Function, m *types.Func, args 
 		n := fx.havocSV(st, "$now", SInt)
 		fx.ctx.Assert(fmt.Sprintf("(>= %s %s)", n, nowBefore))
 	}
+	// decoder-style callees fill the struct behind an interface argument with arbitrary values of the field types
+	if hv, ok := sp.Flags["havocarg"]; ok {
+		a.havocArg(hv, args, st, guard, nowBefore)
+	}
 	// results
 	out := a.freshResults(csig, shortName(sp.Key), guard)
 	env = a.callEnv(fn, csig, args, out)
 	env.pkg = sp.Pkg
 	env.nowOld = nowBefore
+	if len(sp.Witnesses) > 0 {
+		if !sp.Trusted {
+			specErrf("witness functions are only allowed in assumed (trusted) contracts: %s", sp.Key)
+		}
+		env.funs = map[string]FunDecl{}
+		for _, w := range sp.Witnesses {
+			var as []Sort
+			for _, x := range w.Args {
+				as = append(as, Sort(x))
+			}
+			fx.ctx.fresh["wit!"+w.Name]++
+			sym := fx.ctx.DeclareFun(fmt.Sprintf("wit!%s@%d", w.Name, fx.ctx.fresh["wit!"+w.Name]), as, Sort(w.Ret))
+			env.funs[w.Name] = FunDecl{Name: sym, Args: w.Args, Ret: w.Ret}
+		}
+	}
 	for _, en := range enss {
 		t := fx.specTerm(en.X, env, st, pre, sp.Pkg)
 		fx.ctx.Assert(Imp(guard, t))
@@ -718,5 +751,66 @@ func (a *act) goStmt(in *ssa.Go, guard string, st *State) {
 		fx.inGo--
 	default:
 		unsupportedf("go statement (no concurrency rule selected)")
+	}
+}
+
+// havocArg: the i-th argument is an interface holding a pointer to a struct; all fields of that object become arbitrary.
+func (a *act) havocArg(idx string, args []Val, st *State, guard, nowBefore string) {
+	fx := a.fx
+	e := fx.eng
+	i := 0
+	fmt.Sscanf(idx, "%d", &i)
+	if i >= len(args) {
+		return
+	}
+	v := args[i]
+	var pt types.Type = v.Dyn
+	obj := App("iref", v.T)
+	if v.S == SRef {
+		pt, obj = v.GT, v.T
+	}
+	if pt == nil {
+		unsupportedf("havocarg: dynamic type of the argument is not statically known")
+	}
+	stT := derefType(pt)
+	su, ok := stT.Underlying().(*types.Struct)
+	if !ok {
+		unsupportedf("havocarg: %s is not a pointer to struct", pt)
+	}
+	for k := 0; k < su.NumFields(); k++ {
+		ft := su.Field(k).Type()
+		if _, isS := ft.Underlying().(*types.Struct); isS && !isCid(ft) {
+			continue
+		}
+		if _, isA := ft.Underlying().(*types.Array); isA {
+			continue
+		}
+		hn := fieldHeap(stT, k)
+		hs := ArrS(SRef, e.SortOf(ft))
+		oldT := fx.sv(st, hn, hs)
+		newT := fx.havocSV(st, hn, hs)
+		fx.ctx.Assert(Imp(guard, fmt.Sprintf("(forall ((o Ref)) (! (=> (not (= o %s)) (= (select %s o) (select %s o))) :pattern ((select %s o))))", obj, newT, oldT, newT)))
+	}
+	e.assume("library decoders fill their target struct with arbitrary values of the declared field types (any pointer may be nil)")
+}
+
+// checkCallSpec runs a statically known function argument once (zero-argument callspecs only) and checks the ensures.
+func (a *act) checkCallSpec(sp *FuncSpec, cs *CallSpec, pname string, fv Val, guard string, pre *State, pos token.Pos) {
+	fx := a.fx
+	sig := fv.Fn.Signature
+	if sig.Params().Len() != 0 {
+		fx.eng.assume("callspec of " + sp.Key + ":" + pname + " is assumed (arguments are not enumerated)")
+		return
+	}
+	cl := pre.clone()
+	nb := fx.now(cl)
+	full := append([]Val{}, fv.Bind...)
+	out := a.callStatic(fv.Fn, fv.Bind, nil, full, guard, cl, pos, sig)
+	env := a.callEnv(nil, sig, nil, out)
+	env.pkg = sp.Pkg
+	env.nowOld = nb
+	for _, en := range cs.Ensures {
+		t := fx.specTerm(en.X, env, cl, cl, sp.Pkg)
+		fx.addObl("callspec@"+sp.Key+":"+pname, a.prefix()+normSpace(en.Text), guard, t, pos, "function argument must satisfy the callee's callspec")
 	}
 }
